@@ -32,6 +32,19 @@ func (fr *Frame) implicit(st *State, kind string, goal Term, pos token.Pos, want
 	if fr.parent != nil {
 		name = funcKey(fr.fn) + ":" + name
 	}
+	if c := fr.vc.contract; c != nil && c.Flags["bounds"] == "panic" {
+		switch kind {
+		case "index", "slice", "make", "div", "nilmap":
+			// precise semantics instead of an obligation: the operation panics when its check
+			// fails (for functions that recover on purpose; `nopanic` then decides)
+			okb := fr.vc.defineBool("safe.ok", goal)
+			ps := st.clone()
+			ps.reach = sAnd(st.reach, sNot(okb))
+			fr.addPanic(ps)
+			st.reach = sAnd(st.reach, okb)
+			return
+		}
+	}
 	fr.vc.oblige(st, kind, name, goal, pos, "")
 }
 
@@ -864,8 +877,30 @@ func (fr *Frame) execSend(t *ssa.Send, st *State) error {
 		fr.vc.oblige(st, "chaninv", c.Label, g, t.Pos(), c.Text)
 	}
 	ch := fr.val(t.Chan)
+	if err := fr.atSend(st, ch, t.Chan.Type(), fr.val(t.X), t.Block(), t.Pos()); err != nil {
+		return err
+	}
 	fr.chanSendEffect(st, ch.C[0])
 	fr.chanLastSent(st, ch.C[0], t.Chan.Type().Underlying().(*types.Chan).Elem(), fr.val(t.X))
+	return nil
+}
+
+// atSend: the `atsend` clauses of the function under verification are obligations at each of its
+// channel sends (sent = the value, ch = the channel), evaluated in the state before the send.
+func (fr *Frame) atSend(st *State, ch Value, cht types.Type, v Value, blk *ssa.BasicBlock, pos token.Pos) error {
+	if fr.parent != nil || fr.contract == nil || len(fr.contract.AtSend) == 0 || fr.dry != 0 {
+		return nil
+	}
+	et := cht.Underlying().(*types.Chan).Elem()
+	for _, cl := range fr.contract.AtSend {
+		fr.evalPoint = blk
+		g, sks, err := fr.evalGoal(cl, st, fr.entry, map[string]bound{"sent": {v, et}, "ch": {ch, cht}})
+		fr.evalPoint = nil
+		if err != nil {
+			return fmt.Errorf("%s:%d: %v", cl.File, cl.Line, err)
+		}
+		fr.vc.obligeHinted(st, "atsend", fr.contract.clauseName(cl), g, sks, pos, cl.Text)
+	}
 	return nil
 }
 
@@ -947,6 +982,9 @@ func (fr *Frame) execSelect(t *ssa.Select, st *State) error {
 				} else {
 					return err
 				}
+			}
+			if err := fr.atSend(st, fr.val(s.Chan), s.Chan.Type(), sv, t.Block(), t.Pos()); err != nil {
+				return err
 			}
 			for k, cp := range comps(et) {
 				key := chanLastKey(et) + cp.Suffix
